@@ -350,7 +350,7 @@ def instrumented(sess):
         rw_mod.RewritingContext._invoke_patch = orig_invoke
 
 
-def run_session(world, model, sdesc, armed, index, logger=None, gen_cb=None):
+def run_session(world, model, sdesc, armed, index, logger=None, gen_cb=None, check_shape=None):
     """Execute one session against the real module and the model.
     Returns the Session (with .error set if apply() raised)."""
     m = world.module
@@ -361,6 +361,11 @@ def run_session(world, model, sdesc, armed, index, logger=None, gen_cb=None):
         raise core.Desync(f"cannot map real blocks onto the listing: {e}")
     if sdesc is None:
         sdesc = gen_cb(model)
+    elif check_shape is not None and not sdesc.get("wild") and sdesc["ops"]:
+        # a replayed / shrunk scenario must still satisfy the generator's
+        # preconditions
+        if not check_shape(model, sdesc):
+            raise core.Rejected("session violates the generator's shape preconditions")
     sess = Session(world, model, sdesc, armed, index)
     sess.error = None
     if m.aux_data.get("functionEntries") is not None and m.aux_data.get("functionBlocks") is not None:
